@@ -125,7 +125,8 @@ def main():
       # read), and a rule that covers ONE subgraph only: refused (C15) or, if accepted,
       # every subgraph must still come out as if it stood alone
       mb, info = gg.gen_model(rng, n_subgraphs=rng.choice([2, 2, 3]), max_ops=rng.choice([3, 4, 5]),
-                              op_weights=['FULLY_CONNECTED'] * 5 + ['CONV_2D'] * 2 + ['EMBEDDING_LOOKUP', 'ADD', 'RELU', 'TANH'],
+                              op_weights=['FULLY_CONNECTED'] * 5 + ['CONV_2D'] * 2 + ['EMBEDDING_LOOKUP', 'ADD', 'RELU', 'TANH',
+                                          'MAXIMUM', 'MAXIMUM', 'MAXIMUM'],   # (MAXIMUM: an op the quantizer does not know, with a constant operand)
                               force_share=True)
       dist['tied_constants_one_sided_rule'] += 1
     else:
